@@ -473,6 +473,7 @@ def lean_obligations(ctx):
         rr = refine.check(ctx, locked=True)
         mine = [b for b in rr["broken"] if ctx.pid in b["owners"]]
         ctx.cov["refinement"] = {"status": rr["status"], "build_s": rr.get("build_s"), "theorems_audited": rr.get("theorems"),
+                                 "untranslated_on_this_tree": rr.get("untranslated"),
                                  "broken_declarations": [{k: b[k] for k in ("file", "decl", "msg", "owners")} for b in rr["broken"]][:20],
                                  "broken_for_this_property": [b["decl"] for b in mine]}
         if mine:
